@@ -426,17 +426,25 @@ def _get_code_insertion_node(node, is_bound_method):
 def _find_needed_output_variables(context, search_node, at_least_pos, return_variables):
     """
     Searches everything after at_least_pos in a node and checks if any of the
-    return_variables are used in there and returns those.
+    return_variables are used in there and returns those. The same is done for
+    the statements around that node up to the function, because the extracted
+    code might be part of an `if` or a loop. With a loop, the variables might
+    be used in the next iteration, before at_least_pos.
     """
-    for node in search_node.children:
-        if node.start_pos < at_least_pos:
-            continue
+    return_variables = set(return_variables)
+    while True:
+        is_loop = search_node.type in ('for_stmt', 'while_stmt')
+        for node in search_node.children:
+            if node.start_pos < at_least_pos and not is_loop:
+                continue
 
-        return_variables = set(return_variables)
-        for name in _find_non_global_names([node]):
-            if not name.is_definition() and name.value in return_variables:
-                return_variables.remove(name.value)
-                yield name.value
+            for name in _find_non_global_names([node]):
+                if not name.is_definition() and name.value in return_variables:
+                    return_variables.remove(name.value)
+                    yield name.value
+        if search_node is context.tree_node or search_node.parent is None:
+            break
+        search_node = search_node.parent
 
 
 def _is_node_ending_return_stmt(node):
